@@ -25,16 +25,16 @@
 use crate::location::Locations;
 
 use std::borrow::Cow;
-use std::collections::HashMap;
+use std::collections::BTreeMap;
 use std::mem;
 
-#[derive(Clone, Copy, Debug, PartialEq, Eq, Hash)]
+#[derive(Clone, Copy, Debug, PartialEq, Eq, Hash, PartialOrd, Ord)]
 pub(crate) enum PathKind {
     Key,
     Index,
 }
 
-#[derive(Clone, Debug, PartialEq, Eq, Hash)]
+#[derive(Clone, Debug, PartialEq, Eq, Hash, PartialOrd, Ord)]
 pub(crate) struct PathSegment {
     pub(crate) kind: PathKind,
     pub(crate) name: String,
@@ -76,7 +76,7 @@ impl From<usize> for PathSegment {
     }
 }
 
-#[derive(Clone, Debug, PartialEq, Eq, Hash, Default)]
+#[derive(Clone, Debug, PartialEq, Eq, Hash, Default, PartialOrd, Ord)]
 pub(crate) struct PathKey {
     segments: Vec<PathSegment>,
 }
@@ -188,13 +188,15 @@ pub(crate) fn path_key_from_garde(path: &garde::error::Path) -> PathKey {
 
 #[derive(Debug)]
 pub struct PathMap {
-    pub(crate) map: HashMap<PathKey, Locations>,
+    // Ordered, so that the `Debug` form of an error that carries the map (the only structural
+    // view of an `Error` there is) is the same for the same input on every call.
+    pub(crate) map: BTreeMap<PathKey, Locations>,
 }
 
 impl PathMap {
     pub(crate) fn new() -> Self {
         Self {
-            map: HashMap::new(),
+            map: BTreeMap::new(),
         }
     }
 
